@@ -3,9 +3,9 @@
 use crate::http::response::ResponseError;
 use crate::http::{Request, Response, StatusCode};
 
-use std::io::Write;
+use std::io::{ErrorKind, Read, Write};
 use std::net::{SocketAddr, TcpStream};
-use std::time::Duration;
+use std::time::{Duration, Instant};
 
 /// Proxies a request to the given target, timing out and returning an error 502 after `timeout`.
 /// Always returns a response.
@@ -22,8 +22,15 @@ fn proxy_request_internal(
     target: SocketAddr,
     timeout: Duration,
 ) -> Result<Response, ResponseError> {
-    let mut stream =
-        TcpStream::connect_timeout(&target, timeout).map_err(|_| ResponseError::Stream)?;
+    // The whole exchange, not just the connection attempt, must complete within the timeout
+    let deadline = Instant::now() + timeout;
+
+    let stream = TcpStream::connect_timeout(&target, timeout).map_err(|_| ResponseError::Stream)?;
+    stream
+        .set_write_timeout(Some(timeout))
+        .map_err(|_| ResponseError::Stream)?;
+
+    let mut stream = DeadlineStream { stream, deadline };
 
     let mut cloned_request = request.clone();
     cloned_request
@@ -31,8 +38,29 @@ fn proxy_request_internal(
         .add("X-Forwarded-For", request.address.origin_addr.to_string());
     let request_bytes: Vec<u8> = cloned_request.into();
     stream
+        .stream
         .write_all(&request_bytes)
         .map_err(|_| ResponseError::Stream)?;
 
     Response::from_stream(&mut stream)
+}
+
+/// A TCP stream whose reads share a single deadline, so that an upstream which stalls or trickles its response
+///   cannot hold the caller for longer than the configured timeout.
+struct DeadlineStream {
+    stream: TcpStream,
+    deadline: Instant,
+}
+
+impl Read for DeadlineStream {
+    fn read(&mut self, buf: &mut [u8]) -> std::io::Result<usize> {
+        let remaining = self
+            .deadline
+            .checked_duration_since(Instant::now())
+            .filter(|remaining| !remaining.is_zero())
+            .ok_or_else(|| std::io::Error::from(ErrorKind::TimedOut))?;
+
+        self.stream.set_read_timeout(Some(remaining))?;
+        self.stream.read(buf)
+    }
 }
